@@ -411,6 +411,25 @@ func checkC11(w *World) {
 			})
 		}
 		w.check(P, "R11.2", "GetQName depends only on its arguments", gq.Pos(), globals == "", "package-level variable used: "+orNone(globals)+" (a cache keyed by the lexical name survives rebinding of the prefix)")
+		// the parts of the name are cut at the colon, never trimmed by a set of characters taken from the name
+		cut := ""
+		for g := range staticReach(gq, func(x *ssa.Function) bool { return inRepo(x) }) {
+			allInstrs(g, func(in ssa.Instruction) {
+				c, ok := in.(*ssa.Call)
+				if !ok || staticCallee(c) == nil {
+					return
+				}
+				switch funcFullName(staticCallee(c)) {
+				case "strings.Trim", "strings.TrimLeft", "strings.TrimRight":
+					if set, isC := constString(c.Call.Args[1]); !isC || strings.Trim(set, " \t\r\n") != "" {
+						cut = calleeName(c) + " at " + w.pos(c.Pos())
+					}
+				case "strings.TrimFunc", "strings.TrimLeftFunc", "strings.TrimRightFunc", "strings.Map", "strings.Replace", "strings.ReplaceAll", "strings.NewReplacer":
+					cut = calleeName(c) + " at " + w.pos(c.Pos())
+				}
+			})
+		}
+		w.check(P, "R11.2", "GetQName cuts the name at the colon", gq.Pos(), cut == "", "the prefix and the local part are separated by position (Split, Cut, Index); a character-set operation on the name: "+orNone(cut)+" (strings.TrimLeft(name, prefix+\":\") removes every leading character that occurs in the prefix, so `inv:number` becomes `umber`)")
 	} else {
 		w.undecided(P, "R11.2", "exec.GetQName", 0, "not found")
 	}
